@@ -2234,6 +2234,12 @@ func (k *Kernel) handleReplayedHeader(
 	// TODO: did we confirm the voting validator set matches replayed?
 	s.Voting.VoteSummary.SetPrecommitPowers(s.Voting.ValidatorSet.Validators, s.Voting.PrecommitProofs)
 
+	// The voting view now holds the replayed header and its precommits.
+	// Usually it is about to become the committing view,
+	// but if it does not (the replayed block is not the most voted one),
+	// the view consumers still need to learn about the change.
+	s.MarkVotingViewUpdated()
+
 	// Since this was a replayed header and we know it was in the voting round,
 	// we must have added precommits.
 	// Update the store with whatever the new set of precommits is.
